@@ -156,6 +156,17 @@ CHECKS = {
     note=("Trusted: z3, interpreter, identity codec and frame list standing in for brine/Channel (C04/C05). The call-tree obligation is exhaustive "
           "enumeration with native execution -- there the solver decides nothing; deeper trees are argued by uniform re-entrancy, not proved."),
     technique="symbolic execution of the Python AST for one hop (z3) + exhaustive differential execution of call trees on real connections"),
+ "C03": dict(
+    category="other", design_ref="DESIGN.md section 4 (C03)",
+    text=("The real Connection._box/brine.dumpable/get_id_pack decision is executed symbolically on values whose kind is chosen exhaustively at "
+          "every position (9 plain leaf kinds, tuple/frozenset/slice, 17 non-plain witness types incl. enum member, named tuple and str/int/bytes/"
+          "tuple/frozenset subclass instances, own and foreign proxies) with symbolic contents, against the property's decision table: VALUE iff "
+          "plain (type-exact), TUPLE member-wise, LOCAL_REF for the connection's own proxies, otherwise REMOTE_REF entered in the local object table. "
+          "Identity (echo is the original, re-receipt is the same proxy, mutation reaches the owner) is run over all histories of length 4 (quick)/5 "
+          "(thorough) x 7 object kinds on two real connections; obtain/deliver are executed for 8 object kinds."),
+    note=("Trusted: z3, interpreter. Only O1 is solver-decided; O2/O3 are exhaustive enumeration / direct execution on real connections "
+          "(a loopback socket for O3). Nesting depth 1 (quick)/2 (thorough), arity <= 2."),
+    technique="symbolic execution of the Python AST (boxing decision) + exhaustive differential histories on real connections"),
 }
 
 NOT_YET = {}
